@@ -60,6 +60,7 @@ type WriteStep struct {
 	Accept  int  // accept at most this many bytes (-1 = all)
 	Timeout bool // then return a temporary timeout error
 	Fail    bool // then return a hard error (and every later write too)
+	Hook    func() // optional: called when the step is consumed, before the Write returns
 }
 
 // IOEvent is one logged Read or Write.
@@ -281,6 +282,9 @@ func (c *Conn) Write(b []byte) (n int, err error) {
 		if s.Fail {
 			after = ErrCut
 			c.wfail = true
+		}
+		if s.Hook != nil {
+			defer s.Hook()
 		}
 	}
 	c.pmu.Unlock()
